@@ -32,6 +32,24 @@ impl IntoMessage for ChannelEndClosed { open spec fn min_minor() -> u32 { 0 } }
 
 //@include _shared/registry_preamble_b.rs
 
+// futures_channel::mpsc::channel and BrokerHandle::new as far as Broker::new uses them (opaque)
+#[verifier::external_body]
+#[verifier::reject_recursive_types(T)]
+pub struct Sender<T> { _p: core::marker::PhantomData<T> }
+#[verifier::external_body]
+pub fn channel<T>(buffer: usize) -> (r: (Sender<T>, Receiver<T>)) { unimplemented!() }
+impl BrokerHandle {
+    #[verifier::external_body]
+    pub(crate) fn new(send: Sender<ConnectionEvent>) -> (r: Self) { unimplemented!() }
+}
+impl BrokerStatistics {
+    // the real constructor reads the clock (Instant::now()); ASSUMED: all counters start at zero
+    //@fn broker/src/broker/statistics.rs BrokerStatistics::new nobody vis=crate
+        ensures r.num_connections == 0, r.num_objects == 0, r.num_services == 0, r.num_channels == 0, r.num_bus_listeners == 0,
+    //@end
+}
+//@item broker/src/broker.rs const FIFO_SIZE
+
 pub open spec fn call_listed_from(q: Seq<(u32, &ConnectionId)>, from: int, callee_serial: u32, callee: ConnectionId) -> bool {
     exists|i: int| from <= i < q.len() && q[i].0 == callee_serial && *q[i].1 == callee
 }
@@ -90,6 +108,13 @@ impl Broker {
     //@include _shared/chan_inv.rs
     //@include _shared/bl_inv.rs
     //@include _shared/remove_channel_end_contract.rs
+
+    // ---- the initial state satisfies every invariant (base case of the induction over histories) ------------------------
+    //@fn broker/src/broker.rs Broker::new vis=crate
+        ensures
+            r.reg_inv(), r.chan_inv(), r.bl_inv(), r.chan_owners_connected(), r.bl_owners_connected(), r.stat_ok(),
+            forall|k: ConnectionId| !r.conns@.contains_key(k),
+    //@end
 
     //@fn-from broker_handlers_bus_listener broker/src/broker.rs Broker::remove_bus_listener
     //@fn-from broker_handlers_registry broker/src/broker.rs Broker::remove_object
